@@ -251,6 +251,15 @@ func (h *Harness) check(rt *rapid.T, c any, f *Failure) {
 		return
 	}
 
+	if f.Clause == "discard" {
+		h.mu.Lock()
+		h.Discarded++
+		h.Classes["discarded:"+strings.SplitN(f.Msg, " ", 2)[0]]++
+		h.mu.Unlock()
+
+		return
+	}
+
 	if f.Infra {
 		h.mu.Lock()
 		h.inconclusive = append(h.inconclusive, f.String())
@@ -473,6 +482,10 @@ func stopFailure(st *rig.Stop) *Failure {
 	case "died":
 		return failf("fatal", "fatal:"+fatalClass(st.Detail), "child died: %s", head(st.Detail, 1500))
 	case "hang":
+		if strings.HasPrefix(st.Detail, "slow:") {
+			return &Failure{Clause: "discard", Msg: strings.SplitN(st.Detail, "\n", 2)[0]}
+		}
+
 		cls := strings.SplitN(st.Detail, "\n", 2)[0]
 		return failf("hang", "hang:"+strings.SplitN(cls, ":", 2)[0]+":"+hangSite(st.Detail), "watchdog expired: %s", head(st.Detail, 3000))
 	case "error":
